@@ -912,6 +912,10 @@ def R2(ctx, rule="R2", strict_order=True):
             # the read must be an element of a vec<bool> allocated in build's reach
             if ok_seen and ("index" in str(sym[1]) or kind == "unknown"):
                 ok_reset, why_reset = seen_flag_reset(ctx, cm)
+                vals_ = {pc[sym] for pc in cm["pcs"] if sym in pc}
+                neg_ = kind == "expr" and str(sym[1]).startswith(("Not(", "Eq(")) and "false" in str(sym[1]).lower()
+                if ok_reset and kind != "expr" and vals_ != {"0"}:
+                    ok_reset, why_reset = False, "the pair is examined only when its flag is already SET (taken on %s): with all flags cleared nothing is ever examined" % sorted(vals_)
                 ctx.check(ok_reset, rule, "seen-flag", where,
                           "per-iteration seen flag (test-and-set on a local Vec<bool>) guards the pair and is reset at the start of every outer iteration",
                           "the seen flags guarding the pair are not reset for every outer element (%s): a pair examined for one element is skipped for all others" % why_reset)
@@ -923,6 +927,9 @@ def R2(ctx, rule="R2", strict_order=True):
             if srcs and all(s.kind in ("const", "alloc", "op") for s in srcs) and any(
                     s.kind == "alloc" and s[4] == "std::vec::from_elem" for s in srcs):
                 ok_reset, why_reset = seen_flag_reset(ctx, cm)
+                vals_ = {pc[sym] for pc in cm["pcs"] if sym in pc}
+                if ok_reset and vals_ != {"0"}:
+                    ok_reset, why_reset = False, "the pair is examined only when its flag is already SET (taken on %s): with all flags cleared nothing is ever examined" % sorted(vals_)
                 ctx.check(ok_reset, rule, "seen-flag", where,
                           "per-iteration seen flag (element of a local Vec<bool>) guards the pair and is reset at the start of every outer iteration",
                           "the seen flags guarding the pair are not reset for every outer element (%s): a pair examined for one element is skipped for all others" % why_reset)
@@ -1363,10 +1370,14 @@ def R4(ctx, rule="R4"):
     n = 0
     work = []
     reach_ids = {y.id for y in build_reach(ctx)}
+    targets = {"add_node": [], "add_edge": []}
     for body in build_reach(ctx):
         for bb, t in body.calls():
             p = callee_path(t)
             if p in (ADD_EDGE, "daggy::Dag::<N, E, Ix>::add_node") and "daggy::Dag<()," in t["args"][0].get("pl", {}).get("ty", ""):
+                # which of the structure copies receives this insertion (by where the receiver was created / which field it is)
+                rs_ = frozenset(x for x in fl.sources_operand(body, t["args"][0]) if x.kind in ("alloc", "param"))
+                targets["add_node" if "add_node" in p else "add_edge"].append((rs_, body, bb))
                 hsig = ctx.fb.fns.get(body.id) or {}
                 if body.kind == "fn" and body.id != b.id and not hsig.get("public") and loop_region(ctx, body, bb) is None and not body.back_edges():
                     # a method of a private holder of the two structures (`structures.add_edge(from, to, w)`): it does its
@@ -1493,6 +1504,17 @@ def R4(ctx, rule="R4"):
                               rule, "weight|%s" % key, where,
                               "the copied edge keeps the weight of the raw edge", "copied edge weight is %s" % fmt_expr(w, body))
     ctx.check(n >= 4, rule, "count", m.where(b), "2 add_node + 2 add_edge structure copies found", "expected 4 structure-copy calls, found %d" % n)
+    # every structure that receives edges receives the nodes too (and the other way round): nodes inserted twice into one copy
+    # and never into the other leave a copy whose edge insertions index past its nodes
+    tn = {r for r, _, _ in targets["add_node"] if r}
+    te = {r for r, _, _ in targets["add_edge"] if r}
+    if tn and te:
+        miss = [(r, bx, bbx) for (r, bx, bbx) in targets["add_edge"] if r and r not in tn]
+        dup = len(targets["add_node"]) != len(tn) and len(tn) < len(te)
+        ctx.check(not miss and not dup, rule, "nodes-per-structure", m.where(miss[0][1], miss[0][2]) if miss else m.where(b),
+                  "each structure copy that receives the edges also receives one node per function (%d copies)" % len(te),
+                  "a structure copy receives edges but no nodes (the nodes are inserted into the other copy%s): its edge insertions "
+                  "index past its nodes" % (" twice" if dup else ""))
 
 
 def R5(ctx, rule="R5"):
